@@ -30,6 +30,7 @@ DROPPED = {
     "c16_proc_tick": "same body as c06_proc_tick",
     "c05_proc_tick": "CBMC out of memory (40 GB) after ~13 min",
     "c17_metrics_inner": "timeout after 7200 s (11 x 256 atomics)",
+    "c11_reuse_after_clear": "CBMC out of memory (50 GB) after ~15 min (clear + re-insert + tick through the whole parked pipeline)",
 }
 
 
